@@ -5,18 +5,21 @@ Template.generate, Parser, Script.parse under the InputScript / OutputScript tem
 predicates) and with Output.is_* / Database.txo_to_row (type column); plus the property monitor, which
 re-states the property on the implementation's behaviour with its own reference assembler, reference
 tokenizer and opcode-shape tables (written here, sharing nothing with the model)."""
+import asyncio
 import json
 import os
 import random
 import struct
 
 import lbry.wallet  # noqa: F401  (import order)
-from lbry.wallet import Ledger, Database, Headers
+from lbry.wallet import Ledger, Database, Headers, Wallet, Account
 from lbry.wallet.bcd_data_stream import BCDataStream
 from lbry.wallet.script import (OutputScript, InputScript, Script, tokenize, push_data, DataToken, SmallIntegerToken)
 from lbry.wallet.transaction import Transaction, Output, Input
 from lbry.schema.purchase import Purchase
 from lbry.crypto.hash import hash160
+from lbry.schema.types.v2.purchase_pb2 import Purchase as PurchaseMessage
+from lbry.extras.daemon.json_response_encoder import JSONResponseEncoder
 
 import vlib
 
@@ -884,9 +887,26 @@ def check_tx(run, model, case):
     prev = Transaction()
     prev.add_outputs([Output.pay_pubkey_hash(5000, b'\x07' * 20)])
     tx = Transaction()
-    tx.add_inputs([Input.spend(prev.outputs[0])])
+    in_want = None
+    if case.get('input'):
+        g = case['input']
+        ipy, iplain, _ = py_values('input', g['values'])
+        isc0 = InputScript(template=IN_T[g['template']], values=ipy)
+        tx.add_inputs([Input(prev.outputs[0].ref, isc0)])
+        in_want = (g['template'], iplain, isc0.source)
+    else:
+        tx.add_inputs([Input.spend(prev.outputs[0])])
     tx.add_outputs(outs)
-    back = Transaction(tx.raw)
+    lens = [len(src) for _, _, src in want] + ([len(in_want[2])] if in_want else [])
+    for n in lens:
+        run.count('tx:script-length ' + ('<253' if n < 253 else '253..32767' if n < 32768 else '32768..65535' if n < 65536 else '>=65536'))
+    sig = {'op': 'tx', 'script_lengths': lens, 'templates': [w[0] for w in want] + ([in_want[0]] if in_want else [])}
+    try:
+        back = Transaction(tx.raw)
+    except Exception as e:  # noqa
+        run.violation(case, f'a transaction carrying generated scripts of {lens} bytes cannot be read back: {err_class(e)}',
+                      signature=sig)
+        return
     bad = None
     if len(back.outputs) != len(outs):
         bad = 'output count changed on the wire'
@@ -901,16 +921,43 @@ def check_tx(run, model, case):
                 bad = f'{name}: after the wire round trip the output parses as {o.script.template.name} with other values'
         except Exception as e:  # noqa
             bad = f'{name}: output no longer parses after the wire round trip ({err_class(e)})'
-    isc = back.inputs[0].script
-    if not bad:
+    isc = back.inputs[0].script if back.inputs else None
+    if not bad and isc is None:
+        bad = 'the input was lost on the wire'
+    if not bad and in_want is not None:
+        try:
+            if isc.source != in_want[2] or isc.template.name != in_want[0] or not plain_equal(in_want[1], isc.values):
+                bad = f'{in_want[0]}: the input script ({len(in_want[2])} bytes) does not come back from the wire with its template and values'
+        except Exception as e:  # noqa
+            bad = f'{in_want[0]}: the input script no longer parses after the wire round trip ({err_class(e)})'
+    elif not bad:
         try:
             if isc.template.name != 'pubkey_hash' or isc.values != {'signature': Input.NULL_SIGNATURE, 'pubkey': Input.NULL_PUBLIC_KEY}:
                 bad = f'the placeholder input script reads back as {isc.template.name}'
         except Exception as e:  # noqa
             bad = f'the placeholder input script does not parse ({err_class(e)})'
     if bad:
-        run.violation(case, bad, signature={'op': 'tx', 'outputs': case['outputs']})
+        run.violation(case, bad, signature=sig)
         return
+    # the length framing itself, script by script: write_string / read_string against the model's frame / unframe
+    for _, _, src in want + ([in_want] if in_want else []):
+        st = BCDataStream()
+        st.write_string(src)
+        framed = st.get_bytes()
+        tail = b'\xaa\xbb'
+        try:
+            rd = BCDataStream(framed + tail)
+            got = rd.read_string()
+            impl_un = {'s': got.hex(), 'rest': rd.read(10).hex()}
+        except Exception as e:  # noqa
+            impl_un = {'error': 'reader-failed'}
+        if impl_un != {'s': src.hex(), 'rest': tail.hex()}:
+            run.violation(case, f'a script of {len(src)} bytes written with write_string is not read back by read_string '
+                                f'(length prefix {framed[:5].hex()})', signature=sig)
+            return
+        if len(src) > 200:      # the small ones are covered a thousand times over by the parse comparisons
+            run.compare('C15.frame', case, framed.hex(), model.call('frame', s=src.hex()))
+            run.compare('C15.unframe', case, impl_un, model.call('unframe', w=(framed + tail).hex()))
     for (_, _, src), o in zip(want, back.outputs):
         ip = impl_parse_script(o.script, True)
         run.compare('C15.tx-output', case, ip, align_row(ip, model_parse(model, 'output', src)))
@@ -918,6 +965,33 @@ def check_tx(run, model, case):
     if 'error' not in ipi:
         ipi['is_script_hash'] = bool(isc.is_script_hash)
     run.compare('C15.tx-input', case, ipi, model_parse(model, 'input', isc.source))
+
+
+def sized_values(rng, kind, name, total):
+    """values for this template whose generated script is exactly `total` bytes long (None if no single slot can
+    absorb the difference, e.g. at a push-header jump)"""
+    fields = FIELDS[kind][name]
+    shape = OUT_SHAPE[name][0] if kind == 'output' else IN_SHAPES[name]
+    pref = [f for f in ('claim', 'support', 'data', 'signature', 'claim_name', 'pubkey', 'script_hash', 'pubkey_hash') if f in fields]
+    big = pref[0]
+    small = {f: rng.randbytes(rng.choice([0, 1, 20, 33])) for f in fields if f != big}
+    seedv = rng.randrange(1 << 30)
+
+    def length(n):
+        vals = dict(small)
+        vals[big] = b'\x00' * n
+        return len(ref_assemble(shape, vals))
+    n = max(0, total - length(0))
+    for _ in range(6):
+        d = total - length(n)
+        if d == 0:
+            break
+        n = max(0, n + d)
+    if length(n) != total:
+        return None
+    vals = {f: {'b': {'hex': v.hex()}} for f, v in small.items()}
+    vals[big] = {'b': {'len': n, 'seed': seedv, 'prefix': ''} if n > 96 else {'hex': random.Random(seedv).randbytes(n).hex()}}
+    return vals
 
 
 def check_purchase_row(run, model, case):
@@ -1162,6 +1236,186 @@ def load_corpus():
     return out
 
 
+# ------------------------------------------------------------------------------------------------
+# the wallet on top: Database rows, coin filter, Account.fund(everything=True), the daemon's JSON encoder
+# ------------------------------------------------------------------------------------------------
+SEEDS = ["carbon smart garage balance margin twelve chest sword toast envelope bottom stomach absent",
+         "abandon abandon abandon abandon abandon abandon abandon abandon abandon abandon abandon about"]
+JTYPE = {'claim': 'claim/create', 'update': 'claim/update', 'support': 'support', 'support+data': 'support',
+         'data': 'data', 'purchase': 'data'}
+
+
+def purchase_decodes(d):
+    """oracle for the model's [decodable]: protobuf parsing of the bytes after the 'P'"""
+    try:
+        PurchaseMessage().ParseFromString(bytes(d[1:]))
+        return b'\x01'
+    except Exception:  # noqa
+        return b''
+
+
+def wallet_outputs(tx_spec, my_hash):
+    outs = []
+    for o in tx_spec:
+        if 'raw' in o:
+            outs.append(Output(o.get('amount', 0), OutputScript(bytes.fromhex(o['raw']))))
+            continue
+        py, _, _ = py_values('output', o['values'])
+        if o.get('mine'):
+            py['pubkey_hash'] = my_hash
+        outs.append(Output(o.get('amount', 100000000), OutputScript(template=OUT_T[o['template']], values=py)))
+    return outs
+
+
+async def wallet_run(case):
+    """stores the case's transactions the way wallet sync does (insert_transaction + save_transaction_io), then asks the
+    real Database / Ledger / Account / JSONResponseEncoder"""
+    ledger_ = Ledger({'db': Database(':memory:'), 'headers': Headers(':memory:')})
+    await ledger_.db.open()
+    await ledger_.headers.open()
+    try:
+        wallet = Wallet()
+        gen = {'name': 'single-address'} if case.get('chain', 'single') == 'single' else \
+            {'name': 'deterministic-chain', 'receiving': {'gap': 4, 'maximum_uses_per_address': 1},
+             'change': {'gap': 2, 'maximum_uses_per_address': 1}}
+        source = Account.from_dict(ledger_, wallet, {'seed': SEEDS[0], 'address_generator': gen})
+        target = Account.from_dict(ledger_, wallet, {'seed': SEEDS[1], 'address_generator': {'name': 'single-address'}})
+        await source.ensure_address_gap()
+        await target.ensure_address_gap()
+        addresses = await source.receiving.get_addresses()
+        res = {'txs': [], 'scripts': []}
+        ids = {}
+        for n, tx_spec in enumerate(case['txs']):
+            address = addresses[n % len(addresses)]
+            my_hash = ledger_.address_to_hash160(address)
+            prev = Transaction(height=1).add_outputs([Output.pay_pubkey_hash(10 ** 10, bytes([n + 1]) * 20)])
+            tx = Transaction(height=10 + n, is_verified=True).add_inputs([Input.spend(prev.outputs[0])])
+            tx.add_outputs(wallet_outputs(tx_spec, my_hash))
+            await ledger_.db.insert_transaction(tx)
+            await ledger_.db.save_transaction_io(tx, address, my_hash, f'{tx.id}:{10 + n}:')
+            ids[tx.id] = n
+            res['scripts'].append([o.script.source for o in tx.outputs])
+        # 1. the daemon's view
+        encoder = JSONResponseEncoder(ledger=ledger_)
+        txs = await ledger_.db.get_transactions(wallet=wallet, accounts=[source], include_is_my_output=True,
+                                                include_is_spent=True)
+        enc = {}
+        for tx in txs:
+            try:
+                e = encoder.encode_transaction(tx)
+                enc[ids[tx.id]] = [o.get('type') + ('/' + o['claim_op'] if 'claim_op' in o else '') for o in e['outputs']]
+            except Exception as ex:  # noqa
+                enc[ids[tx.id]] = {'error': err_class(ex)}
+        res['encoded'] = enc
+        # 2. the stored type column
+        rows = await ledger_.db.db.execute_fetchall("select txid, position, txo_type from txo")
+        rows = [(r['txid'], r['position'], r['txo_type']) if isinstance(r, dict) else tuple(r) for r in rows]
+        res['rows'] = {(ids[r[0]], r[1]): (1 if r[2] in (1, 2, 5, 6) else r[2]) for r in rows}
+        # 3. the coins: Account.get_utxos and the sweep
+        utxos = await source.get_utxos()
+        res['utxos'] = sorted((ids[u.tx_ref.id], u.position) for u in utxos)
+        try:
+            swept = await source.fund(target, everything=True, broadcast=False)
+            res['swept'] = sorted((ids[i.txo_ref.tx_ref.id], i.txo_ref.position) for i in swept.inputs)
+        except Exception as ex:  # noqa
+            res['swept'] = {'error': err_class(ex)}
+        res['after'] = sorted((ids[u.tx_ref.id], u.position) for u in await source.get_utxos())
+        return res
+    finally:
+        await ledger_.db.close()
+
+
+def check_wallet(run, model, case):
+    run.case(case, nontrivial=True)
+    loop = asyncio.new_event_loop()
+    try:
+        res = loop.run_until_complete(wallet_run(case))
+    finally:
+        loop.close()
+    exp_utxos, bad = [], None
+    for n, scripts in enumerate(res['scripts']):
+        view = model.call('tx_view', scripts=[x.hex() for x in scripts])
+        refs = [ref_classify_output(x) for x in scripts]
+        linked = (len(scripts) >= 2 and refs[1][0] == 'match' and refs[1][1][1] == 'purchase'
+                  and purchase_decodes(refs[1][1][2]['data']) == b'\x01')
+        enc = res['encoded'].get(n)
+        want_types = []
+        for i, (st, info) in enumerate(refs):
+            klass = info[1] if st == 'match' else ('payment' if st == 'empty' else None)
+            if klass is None:
+                want_types = {'error': 'ValueError'}
+                break
+            want_types.append(JTYPE.get(klass) or ('purchase' if (i == 0 and linked) else 'payment'))
+        run.count('wallet:first-output=' + (refs[0][1][1] if refs[0][0] == 'match' else refs[0][0]) + (' +purchase-record' if linked else ''))
+        # monitor, daemon side
+        if not bad and enc != want_types:
+            bad = (f'transaction {n}: the opcodes say {want_types} but JSONResponseEncoder reports {enc} '
+                   f'(scripts {[x.hex()[:24] for x in scripts]})')
+        for i, (st, info) in enumerate(refs):
+            stored = res['rows'].get((n, i))
+            if stored is None:
+                continue
+            klass = info[1] if st == 'match' else 'payment'
+            want_row = ROW_OF_CLASS.get(klass, 4 if (i == 0 and linked) else 0)
+            if not bad and stored != want_row:
+                bad = f'transaction {n} output {i}: a {klass} script is stored with txo_type {stored}, expected {want_row}'
+            if want_row in (0, 4):
+                exp_utxos.append((n, i))
+            # model comparison, output by output
+            mv = view[i]
+            run.compare('C15.wallet-row', case, {'row_type': stored, 'spendable': (n, i) in res['utxos']},
+                        {'row_type': mv['row_type'], 'spendable': mv['spendable']})
+        run.compare('C15.wallet-json', case, enc,
+                    [v['type'] for v in view] if all(v['type'] is not None for v in view) else {'error': 'ValueError'})
+    exp_utxos.sort()
+    if not bad and res['utxos'] != exp_utxos:
+        bad = f'Account.get_utxos offers {res["utxos"]} as coins, the opcodes make only {exp_utxos} spendable'
+    if not bad and res['swept'] != exp_utxos:
+        extra = [x for x in res['swept'] if x not in exp_utxos] if isinstance(res['swept'], list) else res['swept']
+        bad = (f'Account.fund(everything=True) spends {res["swept"]}; only {exp_utxos} are plain payments -- '
+               f'claim-involved outputs swept as coins: {extra}')
+    if not bad and res['after'] != exp_utxos:
+        bad = 'the sweep left outputs reserved'
+    if bad:
+        run.violation(case, bad, signature={'op': 'wallet', 'txs': case['txs']})
+
+
+def gen_wallet_case(rng, chain='single'):
+    """a handful of stored transactions: a mine output of every *+pay_pubkey_hash kind at position 0, optionally followed by a
+    purchase record / plain data / another payment"""
+    good = Purchase('cd' * 20).to_bytes()
+    firsts = ['pay_pubkey_hash', 'claim_name+pay_pubkey_hash', 'update_claim+pay_pubkey_hash',
+              'support_claim+pay_pubkey_hash', 'support_claim+data+pay_pubkey_hash']
+    rng.shuffle(firsts)
+    txs = [[{'template': 'pay_pubkey_hash', 'values': gen_wallet_values(rng, 'pay_pubkey_hash'), 'mine': True, 'amount': 3 * 10 ** 8}]]
+    for name in firsts + [rng.choice(firsts) for _ in range(rng.randrange(0, 3))]:
+        tx = [{'template': name, 'values': gen_wallet_values(rng, name), 'mine': True}]
+        c = rng.random()
+        if c < 0.5:
+            tx.append({'raw': OutputScript.return_data(good).source.hex()})
+        elif c < 0.62:
+            tx.append({'raw': OutputScript.return_data(rng.choice([b'hello', b'P', b'P\xff\xff\xff', b'Q' + good[1:], b''])).source.hex()})
+        elif c < 0.7:
+            tx.append({'raw': ('6a4c%02x' % len(good)) + good.hex()})
+        if rng.random() < 0.3:
+            other = rng.choice(firsts)
+            tx.append({'template': other, 'values': gen_wallet_values(rng, other), 'mine': rng.random() < 0.7, 'amount': 10 ** 6})
+        txs.append(tx)
+    return {'op': 'wallet', 'chain': chain, 'txs': txs}
+
+
+def gen_wallet_values(rng, name):
+    vals = {}
+    for f in FIELDS['output'][name]:
+        if f == 'claim_name':
+            vals[f] = {'b': {'hex': rng.choice([b'a', b'name', b'@channel', 'ünï'.encode()]).hex()}}
+        elif f in ('claim_id', 'pubkey_hash'):
+            vals[f] = {'b': {'hex': rng.randbytes(20).hex()}}
+        else:
+            vals[f] = {'b': {'hex': rng.randbytes(rng.choice([1, 5, 40])).hex()}}
+    return vals
+
+
 def dispatch(run, model, case):
     op = case['op']
     if op == 'push':
@@ -1176,12 +1430,14 @@ def dispatch(run, model, case):
         check_tx(run, model, case)
     elif op == 'purchase_row':
         check_purchase_row(run, model, case)
+    elif op == 'wallet':
+        check_wallet(run, model, case)
     else:
         raise ValueError('unknown case ' + op)
 
 
 def main(run):
-    model = vlib.Model('C15')
+    model = vlib.Model('C15', oracles={'purchase_decodes': purchase_decodes})
     rng = run.rng
     T = run.tier == 'thorough'
     run.rule = ('push: every data length in the exhaustive ranges (quick 0..1200, 65200..65900; thorough 0..70000) through the '
@@ -1190,7 +1446,11 @@ def main(run):
                 '0,1,2,15..17,20,32,33,74..77,254..257,65534..65537,70000 plus random lengths, first bytes from an opcode-like '
                 'set, lock heights of every byte width 0..2^600, utf-8 and binary claim names; parse: opcode soup, token soup '
                 'with all four push header forms, generated scripts with 0-2 edits (cut/flip/insert/delete/append/prepend), '
-                'offered as output, input and subscript; multisig scripts only as parser inputs. distinct = distinct case '
+                'offered as output, input and subscript; multisig scripts only as parser inputs; every parse case asked again twice on the '
+                'same object; third-party (non-canonical) redeem scripts as subscript bytes; transactions whose generated scripts have '
+                'total lengths 250..256, 32760..32775, 65530..65540 (compact-size boundaries, every template at 253/32768/'
+                '65535; thorough: every template at every length of the sweep); wallets holding every *+pay_pubkey_hash kind, optionally followed by purchase records, read through '
+                'Database.get_transactions + JSONResponseEncoder, Account.get_utxos and Account.fund(everything=True). distinct = distinct case '
                 'description; non-trivial = non-empty script / any generation.')
     for case in load_corpus():
         dispatch(run, model, case)
@@ -1263,6 +1523,33 @@ def main(run):
             outs.append({'template': name, 'values': vals})
         check_tx(run, model, {'op': 'tx', 'outputs': outs})
 
+    # total script lengths across the compact-size boundaries (252/253, 32767/32768 = sign bit of a 16-bit length,
+    # 65535/65536), every template, outputs and inputs, inside a serialised transaction
+    sweep = list(range(250, 257)) + list(range(32760, 32776)) + list(range(65530, 65541))
+    plan = [(kn, n) for kn in ALL_GEN for n in ((252, 253, 32767, 32768, 65535, 65536) if T else (253, 32768, 65535))]
+    plan += [(ALL_GEN[i % len(ALL_GEN)], n) for i, n in enumerate(sweep)]
+    if T:
+        plan += [(kn, n) for kn in ALL_GEN for n in sweep]
+    for (kind, name), n in plan:
+        if name in ('timelock', 'script_hash+timelock'):
+            kind, name = 'input', 'pubkey_hash'
+        vals = None
+        for delta in (0, 1, -1, 2):
+            vals = sized_values(rng, kind, name, n + delta)
+            if vals is not None:
+                break
+        if vals is None:
+            continue
+        small = {'template': 'pay_pubkey_hash', 'values': gen_wallet_values(rng, 'pay_pubkey_hash')}
+        if kind == 'output':
+            check_tx(run, model, {'op': 'tx', 'outputs': [{'template': name, 'values': vals}, small]})
+        else:
+            check_tx(run, model, {'op': 'tx', 'outputs': [small], 'input': {'template': name, 'values': vals}})
+
+    # ---- the wallet on top: stored type, coin filter, Account.fund(everything=True), the daemon's JSON encoder ----
+    for i in range(vlib.scaled(run.tier, 10, 300)):
+        check_wallet(run, model, gen_wallet_case(rng, chain='hd' if i % 7 == 3 else 'single'))
+
     # ---- purchase typing at the row level ----
     good = Purchase('ab' * 20).to_bytes()
     for d in [good, good[1:], b'P', b'', b'Q' + good[1:], b'P' + b'\xff' * 5, good + b'\x00']:
@@ -1277,6 +1564,6 @@ def main(run):
 
 
 def replay(run, case):
-    model = vlib.Model('C15')
+    model = vlib.Model('C15', oracles={'purchase_decodes': purchase_decodes})
     dispatch(run, model, case)
     model.close()
